@@ -185,13 +185,13 @@ func genPipe(r *lib.Rng, format string) Case {
 	recBytes := 0
 	switch format {
 	case "ljh22":
-		c.N = r.Pick([]int{60, 100, 250})
+		c.N = r.Pick([]int{250, 400, 600})
 		recBytes = 16 + 2*c.N
 	case "ljh3":
-		c.N = r.Pick([]int{60, 100, 250})
+		c.N = r.Pick([]int{250, 400, 600})
 		recBytes = 24 + 2*c.N
 	default:
-		c.N = r.Range(40, 80)
+		c.N = r.Range(150, 300)
 		recBytes = 36 + 4*c.N
 	}
 	// stall, then a burst large enough to fill bufio (64 KiB) + the pipe (64 KiB) + the queue (1000)
@@ -300,7 +300,7 @@ func pipeCorpus() []Case {
 	return []Case{
 		{Kind: "pipe", Fmt: "ljh22", N: 250, Ops: []GOp{op("S"), {Op: "B", N: 1300}}},
 		{Kind: "pipe", Fmt: "ljh3", N: 250, Ops: []GOp{op("S"), {Op: "B", N: 1300}}},
-		{Kind: "pipe", Fmt: "off", N: 60, Ops: []GOp{op("S"), {Op: "B", N: 1520}}},
+		{Kind: "pipe", Fmt: "off", N: 250, Ops: []GOp{op("S"), {Op: "B", N: 1180}}},
 		// long records
 		genLongPipe(lib.NewRng(71), "ljh22", 4096, 5, true),
 		genLongPipe(lib.NewRng(72), "ljh3", 5000, 5, true),
@@ -311,13 +311,13 @@ func pipeCorpus() []Case {
 		// ... and through DataPublisher.PublishData
 		{Kind: "pub", Fmt: "pub22", N: 250, Ops: []GOp{op("S"), {Op: "B", N: 1300}}},
 		{Kind: "pub", Fmt: "pub3", N: 250, Ops: []GOp{op("S"), {Op: "B", N: 1300}, op("F"), {Op: "B", N: 7}}},
-		{Kind: "pub", Fmt: "puboff", N: 60, Ops: []GOp{op("S"), {Op: "B", N: 1520}, op("P"), {Op: "B", N: 5}}},
+		{Kind: "pub", Fmt: "puboff", N: 250, Ops: []GOp{op("S"), {Op: "B", N: 1180}, op("P"), {Op: "B", N: 5}}},
 	}
 }
 
 func gen(seed uint64, tier string) []interface{} {
 	r := lib.NewRng(seed)
-	ngate, ntick, npipe := 120, 10, 3
+	ngate, ntick, npipe := 100, 10, 0
 	if tier == "thorough" {
 		ngate, ntick, npipe = 2000, 40, 27
 	}
@@ -410,7 +410,7 @@ func main() {
 		},
 		Header:   "From Dastard Require Import Common.ZX Common.CaseLib C07.Model C07.Spec C07.Run.",
 		Verdict:  "verdict",
-		PerShard: 22,
+		PerShard: 11,
 		Isolate:  true,
 		Chunk:    12,
 		Workers:  6,
